@@ -415,8 +415,14 @@ func randCmd(rng *rand.Rand, n int, depth int, allowFocus bool) *CmdD {
 		}
 		return cmd(a)
 	case x < 6 && allowFocus:
-		// a focus change in the capture or target phase keeps the route
-		// unambiguous only when the event stops there
+		// with a consume the event stops there; without, the rest of its route
+		// is that of the old or of the new focus (rule R1m)
+		switch rng.Intn(4) {
+		case 0:
+			return focus(1 + rng.Intn(n))
+		case 1:
+			return slice(cmd("redraw"), focus(1+rng.Intn(n)))
+		}
 		return batch(focus(1+rng.Intn(n)), cmd("consume"))
 	case x < 8:
 		var l []*CmdD
@@ -520,6 +526,14 @@ func GenRandom(rng *rand.Rand, count int, hidden, repar bool) []*Scn {
 				}
 			}
 		}
+		if rng.Intn(3) == 0 {
+			// some widgets draw a surface of their own inside their surface
+			for w := 1; w <= n; w++ {
+				if rng.Intn(4) == 0 {
+					sc.Wrap = append(sc.Wrap, w)
+				}
+			}
+		}
 		if repar {
 			sc.Kind = "random-reparent"
 		}
@@ -550,13 +564,24 @@ func GenRandom(rng *rand.Rand, count int, hidden, repar bool) []*Scn {
 			}
 			switch cls {
 			case "enter", "leave", "fin", "fout":
-				// notifications answer with redraws (possibly batched); hover notifications also with a
-				// consume (as the built-in button does), which must not outlive the notification
-				opts := []*CmdD{nil, cmd("redraw"), batch(cmd("redraw")), slice(batch(), cmd("redraw"))}
+				// notifications answer with redraws (possibly batched), with a consume (as the built-in
+				// button does), which must not outlive the notification, now and then with a focus
+				// command (answered once: two widgets could hand the focus to and fro for ever) and
+				// rarely with a quit, whether an event or a frame sent them
+				opts := []*CmdD{nil, cmd("redraw"), batch(cmd("redraw")), slice(batch(), cmd("redraw")),
+					cmd("consume"), slice(cmd("consume"), cmd("redraw"))}
 				if cls == "enter" || cls == "leave" {
-					opts = append(opts, cmd("consume"), slice(cmd("consume"), cmd("redraw")), cmd("consume"))
+					opts = append(opts, cmd("consume"))
 				}
 				ru.Cmd = opts[rng.Intn(len(opts))]
+				switch x := rng.Intn(40); {
+				case x < 6:
+					ru.Cmd, ru.N = focus(1+rng.Intn(n)), 1
+				case x < 8:
+					ru.Cmd, ru.N = batch(cmd("redraw"), focus(1+rng.Intn(n)), cmd("consume")), 1
+				case x < 9:
+					ru.Cmd = slice(cmd("quit"))
+				}
 			default:
 				ru.Cmd = randCmd(rng, n, 0, true)
 				if rng.Intn(25) == 0 {
@@ -695,5 +720,281 @@ func Fixed() []*Scn {
 		Steps: []Step{mouse(35, tx+1, ty), key("1"), mouse(0, tx+1, ty), Step{T: "mouse", B: 0, Rel: true, X: tx + 1, Y: ty}, mouse(64, tx+1, ty),
 			key("A"), key("y"), key("0"), key("y"), mouse(0, tx+1, ty), key("1"), Step{T: "tfout"}, Step{T: "tfin"}, mouse(35, tx+1, ty), key("0"),
 			mouse(35, 40, 40), key("1"), mouse(35, tx, ty), mouse(35, 40, 40)}})
+	// the focus-out handler of the widget losing the focus (2 -> 4) names a third widget (3): however the two
+	// commands compete, every change is one focus-out to the holder and one focus-in to its successor
+	out = append(out, base("fixed-focusout-refocus", []bool{true, false, false, false},
+		[]Rule{{W: 4, Cls: "fout", Cmd: focus(3), N: 1}, {W: 1, Cls: "init", Ph: "tgt", Cmd: focus(4)},
+			{Cls: "kn", Ph: "tgt", Cmd: batch(focus(2), cmd("consume"))}, {W: 2, Cls: "fin", Cmd: focus(4), N: 1}},
+		key("y"), key("n"), key("y"), key("R"), key("y"), arm(), key("n"), key("y")))
+	// the root, capturing, hands the focus from 4 (under 2) to 3 and lets the key go on: one route, old or new
+	out = append(out, base("fixed-capture-moves-focus", all,
+		[]Rule{{W: 1, Cls: "init", Ph: "tgt", Cmd: focus(4)}, {W: 1, Cls: "kn", Ph: "cap", Cmd: focus(3)}, {W: 1, Cls: "km", Ph: "cap", Cmd: focus(4)}},
+		key("R"), key("y"), key("n"), key("y"), key("m"), key("R"), key("n"), key("y")))
+	// the target hands the focus on without consuming the key; the new holder consumes its focus-in
+	// (vxfw.ConsumeAndRedraw): the key still bubbles
+	out = append(out, base("fixed-focusin-consumes", none,
+		[]Rule{{W: 1, Cls: "init", Ph: "tgt", Cmd: focus(4)}, {W: 4, Cls: "kn", Ph: "tgt", Cmd: focus(3)}, {W: 3, Cls: "kn", Ph: "tgt", Cmd: focus(4)},
+			{Cls: "fin", Cmd: slice(cmd("redraw"), cmd("consume"))}, {W: 4, Cls: "fout", Cmd: cmd("consume")}},
+		key("R"), key("n"), key("y"), key("n"), key("y")))
+	// a widget (4) appears under the resting pointer and answers its mouse-enter, sent by the frame, with quit
+	out = append(out, &Scn{Kind: "fixed-quit-on-frame", Cols: 20, Rows: 6, Parent: dp, Caps: []bool{false, true, false, false},
+		Lays: [][]Geom{dl, dl}, Hid: [][]int{{4}, {}},
+		Rules: append([]Rule{{W: 4, Cls: "enter", Cmd: cmd("quit")}}, genericRules(2)...),
+		Steps: []Step{mouse(35, dl[3].X, dl[3].Y), key("y"), key("1"), key("y"), key("y")}})
+	// widget 2 draws its content in a surface of its own inside its surface (as list.Dynamic draws its cursor
+	// around the selected row): it is one widget under the pointer and one ancestor of 4
+	sn := base("fixed-selfnest", all, []Rule{{Cls: "kA", Ph: "tgt", Cmd: batch(focus(4), cmd("consume"))}},
+		mouse(35, x4, y4), mouse(0, x4, y4), mouse(35, x4-1, y4), mouse(35, x3, y3), key("A"), key("y"), key("R"), key("y"), mouse(35, x4, y4), Step{T: "tfout"})
+	sn.Wrap = []int{2}
+	out = append(out, sn)
+	return out
+}
+
+// ---- commands returned for notifications and while the event is being routed -------
+
+func arm() Step    { return Step{T: "arm"} }
+func disarm() Step { return Step{T: "arm", K: "off"} }
+
+func capsOf(n, mask int) []bool {
+	c := make([]bool, n)
+	for i := range c {
+		c[i] = mask&(1<<i) != 0
+	}
+	return c
+}
+
+// pathOf returns the widgets from the root to w (1-based ids).
+func pathOf(parent []int, w int) []int {
+	var p []int
+	for ; w > 0; w = parent[w-1] {
+		p = append([]int{w}, p...)
+	}
+	return p
+}
+
+// consumerRules: consumer j = (widget, phase) answers key letter 'a'+j with consume.
+func consumerRules(n int) (rs []Rule, j int) {
+	for w := 1; w <= n; w++ {
+		for _, ph := range phases {
+			rs = append(rs, Rule{W: w, Cls: "k" + string(rune('a'+j)), Ph: ph, Cmd: cmd("consume")})
+			j++
+		}
+	}
+	return rs, j
+}
+
+// GenNested: bounded-exhaustive focus commands returned by focus-out / focus-in
+// handlers. One session per (tree shape, capture mask, notification class,
+// widget c): the first widget that is sent that notification after an "arm"
+// answers it with a focus command for c (alone, or in a batch / slice with a
+// redraw). For every ordered pair (x, b) of widgets: the focus is put on x with
+// the answers spent, they are armed, a handler (the target with consume, the
+// root bubbling without, the root capturing with consume, by turns) focuses b,
+// and unconsumed keys plus one with a random single consumer show who holds the
+// focus before and after a frame. sample > 0 keeps one in sample of the
+// sessions of size maxN.
+func GenNested(minN, maxN int, rng *rand.Rand, sample int) []*Scn {
+	var out []*Scn
+	vias := []rune{'A', 'F', 'U'}
+	for n := minN; n <= maxN; n++ {
+		for _, par := range shapes(n) {
+			for mask := 0; mask < 1<<n; mask++ {
+				for ci, cls := range []string{"fout", "fin"} {
+					for c := 1; c <= n; c++ {
+						if sample > 0 && n == maxN && rng.Intn(sample) != 0 {
+							continue
+						}
+						sc := &Scn{Kind: "nested-focus-" + cls, Cols: 24, Rows: 8, Parent: par, Caps: capsOf(n, mask)}
+						sc.Lays = [][]Geom{nestedLayout(par, 24, 8)}
+						ans := []*CmdD{focus(c), batch(cmd("redraw"), focus(c)), slice(focus(c), batch())}[(mask+c+ci)%3]
+						sc.Rules = append(sc.Rules, Rule{Cls: cls, Cmd: ans, N: 1})
+						cons, j := consumerRules(n)
+						sc.Rules = append(sc.Rules, cons...)
+						for w := 1; w <= n; w++ {
+							sc.Rules = append(sc.Rules, Rule{Cls: "k" + string(rune('A'+w-1)), Ph: "tgt", Cmd: batch(focus(w), cmd("consume"))})
+							sc.Rules = append(sc.Rules, Rule{W: 1, Cls: "k" + string(rune('F'+w-1)), Ph: "bub", Cmd: focus(w)})
+							sc.Rules = append(sc.Rules, Rule{W: 1, Cls: "k" + string(rune('F'+w-1)), Ph: "tgt", Cmd: slice(focus(w), cmd("consume"))})
+							sc.Rules = append(sc.Rules, Rule{W: 1, Cls: "k" + string(rune('U'+w-1)), Ph: "cap", Cmd: batch(cmd("consume"), focus(w))})
+							sc.Rules = append(sc.Rules, Rule{Cls: "k" + string(rune('U'+w-1)), Ph: "tgt", Cmd: batch(cmd("consume"), focus(w))})
+						}
+						sc.Rules = append(sc.Rules, genericRules(1)...)
+						k := 0
+						for x := 1; x <= n; x++ {
+							for b := 1; b <= n; b++ {
+								if b == x {
+									continue
+								}
+								via := vias[(k+mask+c)%3]
+								k++
+								sc.Steps = append(sc.Steps, disarm(), key(string(rune('A'+x-1))), arm(), key(string(via+rune(b-1))),
+									key("y"), key(string(rune('a'+rng.Intn(j)))))
+								if k%2 == 0 {
+									sc.Steps = append(sc.Steps, key("R"), key("y"))
+								}
+							}
+						}
+						out = append(out, sc)
+					}
+				}
+			}
+		}
+	}
+	return out
+}
+
+// GenMidRoute: bounded-exhaustive focus commands WITHOUT consume from the
+// handlers an event passes on its way, and consume commands returned for the
+// focus notifications that result. One session per (tree shape, capture mask,
+// variant): for every focus position x, every capturing widget a on the path to x
+// and every widget b, the key of (a, b) makes a's CaptureEvent return a focus
+// command for b; the key of b alone makes the target return one; the root does
+// the same when bubbling. An unconsumed key follows each. Variant "plain":
+// notifications are answered with nothing; "fin-consumes" / "fout-consumes":
+// every focus-in (focus-out) handler returns a consume (with a redraw, as
+// vxfw.ConsumeAndRedraw), which concerns the notification and not the key.
+func GenMidRoute(minN, maxN int, rng *rand.Rand, sample int) []*Scn {
+	var out []*Scn
+	for n := minN; n <= maxN; n++ {
+		for _, par := range shapes(n) {
+			for mask := 0; mask < 1<<n; mask++ {
+				for _, variant := range []string{"plain", "fin-consumes", "fout-consumes"} {
+					if sample > 0 && n == maxN && rng.Intn(sample) != 0 {
+						continue
+					}
+					sc := &Scn{Kind: "midroute-" + variant, Cols: 24, Rows: 8, Parent: par, Caps: capsOf(n, mask)}
+					sc.Lays = [][]Geom{nestedLayout(par, 24, 8)}
+					switch variant {
+					case "fin-consumes":
+						sc.Rules = append(sc.Rules, Rule{Cls: "fin", Cmd: batch(cmd("redraw"), cmd("consume"))})
+					case "fout-consumes":
+						sc.Rules = append(sc.Rules, Rule{Cls: "fout", Cmd: cmd("consume")})
+					}
+					for a := 1; a <= n; a++ {
+						for b := 1; b <= n; b++ {
+							sc.Rules = append(sc.Rules, Rule{W: a, Cls: "k" + string(rune('a'+(a-1)*n+b-1)), Ph: "cap", Cmd: focus(b)})
+						}
+					}
+					for b := 1; b <= n; b++ {
+						sc.Rules = append(sc.Rules, Rule{Cls: "k" + string(rune('q'+b-1)), Ph: "tgt", Cmd: slice(focus(b))})
+						sc.Rules = append(sc.Rules, Rule{W: 1, Cls: "k" + string(rune('F'+b-1)), Ph: "bub", Cmd: focus(b)})
+						sc.Rules = append(sc.Rules, Rule{Cls: "k" + string(rune('A'+b-1)), Ph: "tgt", Cmd: batch(focus(b), cmd("consume"))})
+					}
+					sc.Rules = append(sc.Rules, genericRules(1)...)
+					for x := 1; x <= n; x++ {
+						for _, a := range pathOf(par, x) {
+							if !sc.Caps[a-1] {
+								continue
+							}
+							for b := 1; b <= n; b++ {
+								sc.Steps = append(sc.Steps, key(string(rune('A'+x-1))))
+								if rng.Intn(2) == 0 {
+									sc.Steps = append(sc.Steps, key("R"))
+								}
+								sc.Steps = append(sc.Steps, key(string(rune('a'+(a-1)*n+b-1))), key("y"))
+							}
+						}
+						for b := 1; b <= n; b++ {
+							sc.Steps = append(sc.Steps, key(string(rune('A'+x-1))), key(string(rune('q'+b-1))), key("y"))
+							if rng.Intn(3) == 0 {
+								sc.Steps = append(sc.Steps, key(string(rune('A'+x-1))), key(string(rune('F'+b-1))), key("y"))
+							}
+						}
+					}
+					out = append(out, sc)
+				}
+			}
+		}
+	}
+	return out
+}
+
+// GenTick: commands returned for the notifications a FRAME sends (no event is
+// being handled). One session per (tree shape, non-root widget d that layout 0
+// leaves out, widget t of d's subtree, answer): the pointer rests where t will
+// be, the switch to layout 1 makes t appear under it (mouse-enter on the
+// frame), the switch back removes it (mouse-leave on the frame, and, when t
+// holds the focus, the focus change away from it). Answers: quit for the
+// enter / the leave / the focus-out of t / the focus-in that follows it; a focus
+// command (with a consume) for the enter; a focus command for the focus-out of
+// the vanished widget. A quit ends the run with that frame.
+func GenTick(minN, maxN int, rng *rand.Rand, sample int) []*Scn {
+	var out []*Scn
+	kinds := []string{"quit-enter", "quit-leave", "quit-fout", "quit-fin", "focus-enter", "focus-fout", "quit-enter-batch"}
+	for n := minN; n <= maxN; n++ {
+		for _, par := range shapes(n) {
+			for d := 2; d <= n; d++ {
+				for _, t := range subtree(par, d) {
+					for ki, kind := range kinds {
+						if sample > 0 && n == maxN && rng.Intn(sample) != 0 {
+							continue
+						}
+						mask := rng.Intn(1 << n)
+						lay := nestedLayout(par, 24, 8)
+						if lay[t-1].W < 1 || lay[t-1].H < 1 {
+							continue
+						}
+						sc := &Scn{Kind: "tick-" + kind, Cols: 24, Rows: 8, Parent: par, Caps: capsOf(n, mask),
+							Lays: [][]Geom{lay, lay}, Hid: [][]int{{d}, {}}}
+						c := 1 + (ki+t+d)%n
+						switch kind {
+						case "quit-enter":
+							sc.Rules = append(sc.Rules, Rule{W: t, Cls: "enter", Cmd: cmd("quit")})
+						case "quit-enter-batch":
+							sc.Rules = append(sc.Rules, Rule{W: t, Cls: "enter", Cmd: slice(cmd("redraw"), batch(cmd("quit")))})
+						case "quit-leave":
+							sc.Rules = append(sc.Rules, Rule{W: t, Cls: "leave", Cmd: batch(cmd("quit"))})
+						case "quit-fout":
+							sc.Rules = append(sc.Rules, Rule{W: t, Cls: "fout", Cmd: cmd("quit"), N: 1})
+						case "quit-fin":
+							sc.Rules = append(sc.Rules, Rule{W: 1, Cls: "fin", Cmd: slice(cmd("quit")), N: 1})
+						case "focus-enter":
+							sc.Rules = append(sc.Rules, Rule{W: t, Cls: "enter", Cmd: batch(focus(c), cmd("consume")), N: 1})
+						case "focus-fout":
+							sc.Rules = append(sc.Rules, Rule{W: t, Cls: "fout", Cmd: focus(c), N: 1})
+						}
+						for w := 1; w <= n; w++ {
+							sc.Rules = append(sc.Rules, Rule{Cls: "k" + string(rune('A'+w-1)), Ph: "tgt", Cmd: batch(focus(w), cmd("consume"))})
+						}
+						sc.Rules = append(sc.Rules, genericRules(2)...)
+						x, y := origin(par, lay, t-1)
+						sc.Steps = []Step{disarm(), mouse(35, x, y), key("y"), key("1"), key("y"), key(string(rune('A' + t - 1))), key("y"), arm(),
+							key("0"), key("y"), key("1"), key("y"), key("0"), key("y")}
+						out = append(out, sc)
+					}
+				}
+			}
+		}
+	}
+	return out
+}
+
+// GenSelfNest: the route family (variant without frames after focus changes)
+// on trees in which the widgets of a set draw a surface of their own inside
+// their surface; every non-empty set for sizes below maxN, a random one each
+// for size maxN.
+func GenSelfNest(maxN int, rng *rand.Rand, sample int) []*Scn {
+	var out []*Scn
+	for _, sc := range GenRoute(maxN, rng, sample) {
+		n := len(sc.Parent)
+		if sc.Kind != "route-stale" {
+			continue
+		}
+		lo, hi := 1, 1<<n
+		if n == maxN {
+			lo = 1 + rng.Intn(1<<n-1)
+			hi = lo + 1
+		}
+		for set := lo; set < hi; set++ {
+			cp := *sc
+			cp.Kind = "route-selfnest"
+			cp.Wrap = nil
+			for w := 1; w <= n; w++ {
+				if set&(1<<(w-1)) != 0 {
+					cp.Wrap = append(cp.Wrap, w)
+				}
+			}
+			out = append(out, &cp)
+		}
+	}
 	return out
 }
